@@ -23,8 +23,9 @@ STUBS = {
     'ctor:std::string/0': {'expr': 'vs_nstr_ctor_empty()'},
     'strtol': 'vs_strtol', 'strtoul': 'vs_strtoul', 'strtoull': 'vs_strtoul', 'strtoll': 'vs_strtol',
     'var:npos': 'VS_NPOS',
+    'stoi': 'vs_stoi', 'stol': 'vs_stol', 'stoll': 'vs_stol', 'stoul': 'vs_stoul', 'stoull': 'vs_stoul',
 }
-THROWING = ['vs_nstr_substr', 'vs_nstr_substr1']
+THROWING = ['vs_nstr_substr', 'vs_nstr_substr1', 'vs_stoi', 'vs_stol', 'vs_stoul', 'vs_stoi3', 'vs_stol3', 'vs_stoul3']
 ALWAYS_REPLACE = ['vs_strtol', 'vs_strtoul']
 RECORDS = ['Pistache::Port', 'Pistache::AddressParser', 'Pistache::Address']
 OPAQUE = ['Pistache::IP']
